@@ -6,6 +6,8 @@ package main
 //   deadline equality (C06): probes that stay open must all be closed at the same moment, whatever they
 //     sent and whenever they sent it — in particular a probe whose 50th byte (the one that lets the
 //     server decide) arrives just before the deadline.
+//   request/response over an open connection (C02): what the client has written reaches the target although the client
+//     neither writes more nor closes — for request sizes around the maximum chunk size (16383) in particular.
 //   bulk upload to a slow target that has already finished its own direction (C02): every byte the
 //     client sent reaches the target, followed by a clean end of stream — also when the proxy's send
 //     queue towards the target is still full at the moment both directions are done.
@@ -298,5 +300,98 @@ func tcpDirectedBulk(r *Rng, e *netEnv, out *Out) {
 			out.Note("directed bulk: closed with status %s", rec.status)
 		}
 	case <-time.After(5 * time.Second):
+	}
+}
+
+// request/response: the client sends a request of exactly `size` bytes (in maximum-size chunks) and then WAITS with the
+// connection open; the target answers once it has the whole request.  Data the proxy holds back until "more arrives"
+// would deadlock such an exchange.
+func tcpDirectedRequestResponse(r *Rng, e *netEnv, out *Out) {
+	if len(e.publicV4) == 0 {
+		return
+	}
+	tip := e.publicV4[0]
+	for _, size := range []int{16383, 2 * 16383, 16382, 16384, 700} {
+		tln, err := net.Listen("tcp4", net.JoinHostPort(tip, "9011"))
+		if err != nil {
+			out.Note("directed request/response target: %v", err)
+			return
+		}
+		got := make(chan int, 1)
+		go func() {
+			c, err := tln.Accept()
+			if err != nil {
+				got <- -1
+				return
+			}
+			defer c.Close()
+			c.SetReadDeadline(time.Now().Add(3 * time.Second))
+			buf := make([]byte, size)
+			n, _ := io.ReadFull(c, buf)
+			if n == size {
+				c.Write([]byte("ack"))
+			}
+			got <- n
+			time.Sleep(50 * time.Millisecond)
+		}()
+		entries := []cfgEntry{{ref: 1, id: "k", cipher: "aes-256-gcm", secret: "rr-secret", keyref: 0}}
+		cl, err := makeCipherList(entries)
+		if err != nil {
+			tln.Close()
+			return
+		}
+		auth := service.NewShadowsocksStreamAuthenticator(cl, nil, &tcpSearchRec{}, nil)
+		h := service.NewStreamHandler(auth, 2*time.Second)
+		ln, err := net.ListenTCP("tcp4", &net.TCPAddr{IP: net.IPv4(127, 0, 0, 1)})
+		if err != nil {
+			tln.Close()
+			return
+		}
+		served := make(chan struct{})
+		go func() {
+			service.StreamServe(service.WrapStreamAcceptFunc(ln.AcceptTCP), func(ctx context.Context, c transport.StreamConn) {
+				h.Handle(ctx, c, &tcpConnRec{closed: make(chan struct{})})
+			})
+			close(served)
+		}()
+		conn, err := net.DialTCP("tcp4", nil, ln.Addr().(*net.TCPAddr))
+		if err == nil {
+			key := newSpecKey("aes-256-gcm", "rr-secret")
+			w := newSpecStreamWriter(key, r.Bytes(key.c.saltSize))
+			payload := r.Bytes(size)
+			conn.Write(append(append([]byte{}, w.salt...), w.chunk(socksV4(net.ParseIP(tip), 9011))...))
+			for off := 0; off < size; off += 0x3fff {
+				end := off + 0x3fff
+				if end > size {
+					end = size
+				}
+				conn.Write(w.chunk(payload[off:end]))
+			}
+			// no FIN, no further data: wait for the answer
+			rd := &specStreamReader{k: key}
+			var plain []byte
+			conn.SetReadDeadline(time.Now().Add(4 * time.Second))
+			buf := make([]byte, 4096)
+			for len(plain) < 3 {
+				n, err := conn.Read(buf)
+				rd.feed(buf[:n])
+				p, _ := rd.drain()
+				plain = append(plain, p...)
+				if err != nil {
+					break
+				}
+			}
+			n := <-got
+			out.Stat("directed.reqresp.runs", 1)
+			if n != size {
+				out.Oracle("C02", "request/response with the connection kept open: the client wrote a request of %d bytes and waits; the target received %d of them within 3 s", size, n)
+			} else if string(plain) != "ack" {
+				out.Oracle("C02", "request/response with the connection kept open (%d-byte request): the target answered \"ack\", the client decrypted %q", size, plain)
+			}
+			conn.Close()
+		}
+		ln.Close()
+		<-served
+		tln.Close()
 	}
 }
